@@ -17,6 +17,6 @@ json.dump(m,open(p,'w'),indent=1)
 print(d, ex, first[:110])
 PY
   ) &
-  while [ $(jobs -r | wc -l) -ge 6 ]; do sleep 1; done
+  while [ $(jobs -r | wc -l) -ge 8 ]; do sleep 1; done
 done
 wait
